@@ -25,26 +25,42 @@ META = {
                   'the three levels exactly once per effective line, immediate call-backs on registration, nothing otherwise), '
                   'timestamp_not_future / timestamps_not_future_run, rebuilt_error + standard_classes_kept, '
                   'ineffective_changes_nothing, accepted_is_import, e2e_read / e2e_write over abstract codecs with the round-trip '
-                  'laws as hypotheses, judge_iff (the monitor decides the specification), tables_ok (by decide on the generated '
-                  'tables).  The model is tied to frappy/client/__init__.py and errors.py by a correspondence run on the real '
-                  'receive loop, compared event by event; the Lean monitor judges every recorded history.',
+                  'laws as hypotheses, and e2e_write_datatypes / e2e_read_datatypes where these hypotheses are discharged for the '
+                  'datatype model (export with the rebuilt client datatype, import on the node, export of the answer, import on the '
+                  'client: every well-formed datatype tree, every valid value, every float carrier satisfying Spec.C02.WireLaws; '
+                  'int_import_exact), error_roundtrip + source_classes_ok (an error of any class of errors.py formatted by a node '
+                  'and rebuilt by the client is the same object), judge_iff and writeOkB_iff (the monitors decide the '
+                  'specification), tables_ok (by decide on the generated tables).  Callbacks may unregister callbacks while they run '
+                  '(a registration removed during the dispatch of a message sees it at most once, all others exactly once).  The '
+                  'model is tied to frappy/client/__init__.py and errors.py by a correspondence run on the real receive loop, '
+                  'compared event by event, with the import oracle instantiated by the datatype model (Datatypes.importValue on the '
+                  'trees of the datatypes the client rebuilt): the Lean monitor judges every recorded history without using the '
+                  'implementation\'s import_value.  Every end-to-end write over the real TCP server (directly and through a proxy '
+                  'module) is judged by the Lean monitor writeOkB with Python == as PVal.pyEq and compared with the model\'s account '
+                  '(writeTrace / proxyTrace: export, import, validate with previous, write wrapper, answer, import).',
     'level_note': 'Trusted: Lean kernel + axioms propext/Classical.choice/Quot.sound; tables regenerated from the source; '
-                  'decode_msg (C07) and datatype import/export (C01/C02) are oracles; part (b) (real TCP server, real client, proxy) '
-                  'is a test, not a proof.',
+                  'decode_msg (C07) is an oracle; the datatype model (C01/C02) stands for import_value/export_value/validate and is '
+                  'compared with the code in every case; the laws of the float carrier (WireLaws) and of base64 (B64Law) are '
+                  'hypotheses of the end-to-end theorems; the node-side validate(value, previous) is in the compared model '
+                  '(writeTrace) but not in e2e_write_datatypes; part (b) (real TCP server, real client, proxy) is a test judged by '
+                  'Lean monitors, not a proof.',
     'trusted': [
         'decode_msg (frappy.protocol.interface) is used to canonicalise the scripted lines for the model (property C07)',
-        'datatype.import_value / export_value are oracles here; the round-trip law is a hypothesis of e2e_write/e2e_read (property C02)',
+        'get_datatype (datainfo -> datatype object, property C03) and vlib.dtcodec.dt_to_tree deliver the datatype trees the model imports with',
+        'Spec.C02.WireLaws (binary64) and B64Law are hypotheses of e2e_write_datatypes / e2e_read_datatypes (property C02)',
         'time stamps and clock readings are drawn from a grid of exactly representable doubles (multiples of 0.25) and sent to the '
         'model as integers; IEEE comparison on these coincides with integer comparison',
         'part (b) end to end over real sockets and threads is a test that supports the composed theorem, labelled as such',
     ],
     'modelled_not_verified': [
         'request/reply matching and the threads of SecopClient (property C11)',
-        'frappy/proxy.py glue (exercised in part (b), not modelled)',
+        'frappy/proxy.py: the generated write function is modelled (proxyTrace) and compared; read functions, updateEvent forwarding '
+        'and status handling are exercised in part (b), not modelled',
         'socketserver / TCPServer / AsynConn',
         're module: the model transcribes FRAPPY_ERROR by hand (\\w restricted to ASCII, see design_notes/C12.md)',
     ],
-    'assumptions': ['callbacks do not themselves call register_callback/unregister_callback or write the cache',
+    'assumptions': ['callbacks do not themselves call register_callback or write the cache (calling unregister_callback from inside a '
+                    'callback, for itself or for others, is modelled and generated)',
                     'setParameterFromString (F09) is out of scope: C12 speaks about setParameter'],
 }
 
@@ -55,6 +71,21 @@ UPDATE_ACTIONS = ['update', 'error_update', 'reply', 'changed', 'error_read']
 # ----------------------------------------------------------------------------------------
 # generated nodes / descriptions
 # ----------------------------------------------------------------------------------------
+INT_MARKS = sorted({s * (b + d) for s in (1, -1) for b in (0, 2 ** 24, 2 ** 31, 2 ** 32, 2 ** 53, 2 ** 62, 2 ** 63, 2 ** 64)
+                    for d in (-2, -1, 0, 1, 2, 3)} | {0x0123456789abcdef, -0x0fedcba987654321, 10 ** 16 + 1, 10 ** 18 + 7})
+FLOAT_MARKS = [0.0, -0.0, 1.0, -1.0, 0.1, 1 / 3, 2.5, 1e-300, 5e-324, 2.2250738585072014e-308, 1e15 + 0.5, 2.0 ** 53, 2.0 ** 53 + 2,
+               -2.0 ** 63, 1e22, 1.7976931348623157e308, -1.7976931348623157e308, 123456789.12345679, 4.35, 1e-7]
+
+
+def int_catalogue(rng, lo, hi):
+    """boundary catalogue for an integer range: the limits, their neighbours, and the marks where a conversion through a
+    double, a 32 bit or a 64 bit integer would show (every one an exact Python int inside [lo, hi])"""
+    cands = [lo, hi, lo + 1, hi - 1] + [x for x in INT_MARKS if lo <= x <= hi]
+    cands += [rng.randint(lo, hi) for _ in range(3)]                      # uniformly: mostly of the magnitude of the range
+    cands += [rng.randint(max(lo, -1000), min(hi, 1000))] if lo <= 1000 and hi >= -1000 else []
+    return [x for x in cands if lo <= x <= hi]
+
+
 def gen_datatype(rng, depth=0):
     """-> (datatype, value generator giving a member of its value set as the Python side holds it)"""
     from frappy import datatypes as D
@@ -63,16 +94,20 @@ def gen_datatype(rng, depth=0):
         kinds += ['array', 'tuple', 'struct']
     k = rng.choice(kinds)
     if k == 'float':
-        lo, hi = rng.choice([(None, None), (0, 10), (-5.5, 5.5), (1e-3, 1e9)])
+        lo, hi = rng.choice([(None, None), (None, None), (0, 10), (-5.5, 5.5), (1e-3, 1e9)])
         dt = D.FloatRange(lo, hi) if lo is not None else D.FloatRange()
         a, b = (lo, hi) if lo is not None else (-1e6, 1e6)
-        gen = lambda r: r.choice([a, b, (a + b) / 2, a + (b - a) * r.random(), round(a + (b - a) * r.random(), 2)])
+        marks = [x for x in FLOAT_MARKS if lo is None or lo <= x <= hi]
+        gen = lambda r: r.choice([a, b, (a + b) / 2, a + (b - a) * r.random(), round(a + (b - a) * r.random(), 2),
+                                  r.choice(marks), r.choice(marks)])
     elif k == 'int':
-        lo, hi = rng.choice([(0, 10), (-3, 3), (-2 ** 24, 2 ** 24), (5, 5)])
+        lo, hi = rng.choice([(0, 10), (-3, 3), (-2 ** 24, 2 ** 24), (5, 5), (0, 2 ** 64 - 1), (-2 ** 63, 2 ** 63 - 1),
+                             (0, 2 ** 32 - 1), (-2 ** 53 - 5, 2 ** 53 + 5), (-2 ** 64, 2 ** 64), (10 ** 15, 10 ** 17)])
         dt = D.IntRange(lo, hi)
-        gen = lambda r: r.choice([lo, hi, r.randint(lo, hi)])
+        gen = lambda r: r.choice(int_catalogue(r, lo, hi))
     elif k == 'scaled':
-        scale, lo, hi = rng.choice([(0.1, 0, 10), (0.25, -4, 4), (1e-3, 0, 1), (7, -70, 700)])
+        scale, lo, hi = rng.choice([(0.1, 0, 10), (0.25, -4, 4), (1e-3, 0, 1), (7, -70, 700), (0.5, -2.0 ** 40, 2.0 ** 40),
+                                    (1, -2 ** 53, 2 ** 53)])
         dt = D.ScaledInteger(scale, lo, hi)
         gen = lambda r: r.choice([lo, hi, scale * r.randint(int(round(lo / scale)), int(round(hi / scale)))])
     elif k == 'enum':
@@ -97,7 +132,7 @@ def gen_datatype(rng, depth=0):
         lo = rng.choice([0, 0, 1])
         hi = lo + rng.choice([0, 2, 3])
         dt = D.ArrayOf(inner, lo, max(hi, 1) if lo == 0 else hi)
-        gen = lambda r: [ig(r) for _ in range(r.randint(dt.minlen, dt.maxlen))]
+        gen = lambda r: tuple(ig(r) for _ in range(r.randint(dt.minlen, dt.maxlen)))
     elif k == 'tuple':
         parts = [gen_datatype(rng, depth + 1) for _ in range(rng.randint(1, 3))]
         dt = D.TupleOf(*[p[0] for p in parts])
@@ -246,9 +281,19 @@ def q4(x):
     return int(f)
 
 
+def pval(v):
+    """a Python value in the protocol encoding of the Lean side (ints exact, floats by bit pattern, tuple/list/dict/enum kept
+    apart); something that is none of these kinds travels as a string naming its type (equal to nothing the model produces)"""
+    from vlib.dtcodec import py_to_json
+    try:
+        return py_to_json(v)
+    except Exception:
+        return 'unencodable:' + type(v).__name__
+
+
 def content_obs(value, readerror):
     if readerror is None:
-        return ['v', canon(value)]
+        return ['v', pval(value)]
     e = readerror
     arg = e.args[0] if len(e.args) == 1 and isinstance(e.args[0], str) else repr(e.args)
     try:
@@ -284,7 +329,7 @@ def shape(action, data):
             return ['r', data[0] if isinstance(data[0], str) else None, data[1], tq(data[2])]
         return ['x']
     if isinstance(data, list) and len(data) >= 2 and isinstance(data[1], dict):
-        return ['v', json.dumps(data[0], sort_keys=True), tq(data[1])]
+        return ['v', pval(data[0]), tq(data[1])]        # the JSON value as json.loads delivered it
     return ['x']
 
 
@@ -353,6 +398,11 @@ class Runner:
         UnregisterCallback = self.fc.UnregisterCallback
 
         def act():
+            for target in spec.get('removes', ()):       # the callback unregisters callbacks (itself, others) while it runs
+                tspec = self.cbs[target]
+                tkey = tuple(tspec['key']) if isinstance(tspec['key'], list) else tspec['key']
+                tname = 'updateItem' if tspec['kind'] == 'item' else 'updateEvent'
+                self.client.unregister_callback(tkey, **{tname: self.funcs[target]})
             if behave == 'raises':
                 raise ValueError('callback %d raises' % cbid)
             if behave == 'unregister':
@@ -456,36 +506,26 @@ def wire_events(case):
 _dt_cache = {}
 
 
-def oracle_table(desc, desc_key, maps, wired):
-    """import oracle: for every parameter of the description (keys as in the model's maps) x every value text of the
-    case, what the datatype rebuilt from the description makes of it (None = it raises)"""
-    from frappy.datatypes import get_datatype
-    dts = _dt_cache.get(desc_key)
-    if dts is None:
-        dts = {}
-        for ident, m, iname in maps['internal']:
-            aname = ident.split(':', 1)[1]
-            acc = desc['modules'][m]['accessibles'][aname]
-            if acc['datainfo'].get('type') == 'command':
-                continue
-            dts[(m, iname)] = get_datatype(acc['datainfo'], iname)      # later identifiers overwrite earlier ones, as in a dict
-        _dt_cache[desc_key] = dts
-    texts = sorted({ev[2][2][1] for ev in wired if ev[0] == 'line' and ev[2] and ev[2][2][0] == 'v'})
-    table = []
-    for (m, p), dt in dts.items():
-        for tx in texts:
-            try:
-                r = canon(dt.import_value(json.loads(tx)))
-            except Exception:
-                r = None
-            table.append([m, p, tx, r])
-    return table
+def client_trees(desc, desc_key):
+    """the datatypes a real client rebuilds from the description (`get_datatype` on the datainfo, the objects the receive
+    loop calls `import_value` on), as trees for the datatype model: [[module, parameter, tree], ...]"""
+    from vlib.dtcodec import dt_to_tree
+    import frappy.client as fc
+    trees = _dt_cache.get(desc_key)
+    if trees is None:
+        c = fc.SecopClient('fake://verif', log=None)
+        c._init_descriptive_data(desc)
+        trees = [[m, p, dt_to_tree(pd['datatype'])] for m, md in c.modules.items() for p, pd in md['parameters'].items()]
+        c.callbacks.clear()
+        _dt_cache[desc_key] = trees
+    return trees
 
 
 def requests_for(desc, desc_key, maps, case, steps):
     wired = wire_events(case)
-    base = {'p': PROP, 'desc': desc_summary(desc), 'imp': oracle_table(desc, desc_key, maps, wired),
-            'behave': [[int(k), v['behave']] for k, v in case['cbs'].items()], 'evs': wired}
+    base = {'p': PROP, 'desc': desc_summary(desc), 'dts': client_trees(desc, desc_key),
+            'behave': [[int(k), v['behave'], [[case['cbs'][str(x)]['kind'], case['cbs'][str(x)]['key'], x] for x in v.get('removes', ())]]
+                       for k, v in case['cbs'].items()], 'evs': wired}
     obs = [{'calls': st['calls'], 'cache': st['cache']} for st in steps]
     return dict(base, k='run'), dict(base, k='judge', steps=obs), wired
 
@@ -557,9 +597,19 @@ def gen_value(rng, dinfo, wrong=0.15):
     t = dinfo.get('type')
     if t == 'double':
         lo, hi = dinfo.get('min', -100.0), dinfo.get('max', 100.0)
-        return rng.choice([lo, hi, round(lo + (min(hi, lo + 1e6) - lo) * rng.random(), 3), int(lo)])
+        marks = [x for x in FLOAT_MARKS if ('min' not in dinfo or lo <= x) and ('max' not in dinfo or x <= hi)] or [lo]
+        return rng.choice([lo, hi, round(lo + (min(hi, lo + 1e6) - lo) * rng.random(), 3), int(lo), rng.choice(marks),
+                           rng.choice(marks), int(rng.choice(marks))])
     if t == 'int':
-        return rng.randint(dinfo.get('min', -5), min(dinfo.get('max', 5), dinfo.get('min', -5) + 1000))
+        lo, hi = dinfo.get('min', -2 ** 24), dinfo.get('max', 2 ** 24)
+        r = rng.random()
+        if r < 0.6:
+            return rng.choice(int_catalogue(rng, lo, hi))
+        if r < 0.75:                                             # a whole-number float (accepted), also beyond 2**53
+            return float(rng.choice(int_catalogue(rng, lo, hi)))
+        if r < 0.85:                                             # outside the declared range (import does not check limits)
+            return rng.choice(INT_MARKS)
+        return rng.randint(lo, min(hi, lo + 1000))
     if t == 'scaled':
         return rng.randint(dinfo['min'], dinfo['max'])
     if t == 'enum':
@@ -611,11 +661,13 @@ def gen_line(rng, desc, now):
     # identifier
     mname = rng.choice(list(mods))
     accs = mods[mname]['accessibles']
-    aname = rng.choice(list(accs))
-    dinfo = accs[aname]['datainfo']
+    aname = rng.choice(list(accs)) if accs else 'value'        # a module may have no accessible at all
+    dinfo = accs[aname]['datainfo'] if accs else None
     r = rng.random()
     if r < 0.62:
         ident = f'{mname}:{aname}'
+        if not accs:
+            dinfo = None
     elif r < 0.8:
         ident = mname
         aname = 'target' if action == 'changed' else 'value'
@@ -666,6 +718,9 @@ def gen_case(rng, desc, big):
     for cbid in range(1, rng.randint(2, 9 if big else 7)):
         cbs[str(cbid)] = {'kind': rng.choice(['item', 'event']), 'key': rng.choice(keys[:-2] * 3 + keys[-2:]),
                           'behave': rng.choice(['ok'] * 6 + ['raises', 'raises', 'unregister'])}
+    for cbid, spec in cbs.items():          # some callbacks call unregister_callback while they run: for themselves, for others
+        if rng.random() < 0.25:
+            spec['removes'] = [int(rng.choice([cbid] + list(cbs) * 2)) for _ in range(rng.choice([1, 1, 2]))]
     events = []
     now = rng.choice([100.0, 1000.25, 5.0])
     live = []
@@ -775,40 +830,23 @@ class Served:
         self.thread.join(5)
 
 
-def pyeq(a, b):
-    """Python equality, with containers compared element-wise and tuple == list (the wire has only lists)"""
-    if isinstance(a, (list, tuple)) and isinstance(b, (list, tuple)):
-        return len(a) == len(b) and all(pyeq(x, y) for x, y in zip(a, b))
-    if isinstance(a, dict) and isinstance(b, dict):
-        return set(a) == set(b) and all(pyeq(a[k], b[k]) for k in a)
-    try:
-        return bool(a == b)
-    except Exception:
-        return False
-
-
-def is_truncation(got, passed):
-    """`got` is `passed` with some sequence cut short (signature of F06: ArrayOf.validate zips with the stored value)"""
-    if isinstance(got, (list, tuple)) and isinstance(passed, (list, tuple)):
-        return len(got) <= len(passed) and all(pyeq(g, x) or is_truncation(g, x) for g, x in zip(got, passed)) \
-            and not pyeq(got, passed)
-    if isinstance(got, dict) and isinstance(passed, dict):
-        return set(got) == set(passed) and all(pyeq(got[k], passed[k]) or is_truncation(got[k], passed[k]) for k in got) \
-            and not pyeq(got, passed)
-    return False
-
-
-def e2e_case(rng, nvalues, with_proxy, res):
-    """one generated node, `nvalues` writes through a real client (and through a proxy module in front of it).
+def e2e_case(rng, nvalues, with_proxy, res, driver):
+    """one generated node, `nvalues` writes through a real client (and through a proxy module in front of it); every
+    observed write (value passed, what the driver's write function got and returned, what setParameter returned, the cache
+    entry, its time stamp) is judged by the Lean monitor (`judge_e2e`: Spec.C12.writeOkB with Python's `==` as PVal.pyEq).
     -> list of failures {'what', 'sig', 'detail'}"""
     from frappy.client import SecopClient
+    from vlib.dtcodec import fj, dt_to_tree
     fails = []
+    models = []         # per pending write: request for the model's account (None: not compared)
     dlog = DriverLog()
     node, info = gen_node(rng, dlog, writable_all=True, nmods=rng.randint(1, 2))
     srv = Served(node)
     client = None
     pnode = None
     pclient = None
+    pending = []        # (request for the monitor, text describing the case, detail)
+    errobs = []
     try:
         client = SecopClient('localhost:%d' % srv.port, log=None)
         seen = []
@@ -823,10 +861,15 @@ def e2e_case(rng, nvalues, with_proxy, res):
         for _ in range(nvalues):
             m, p = rng.choice(targets)
             dt, gen = info[m][p]
-            v = dt(gen(rng))                      # a member of the value set, as a caller holds it
-            back = rng.choice([None, None, dt(gen(rng))])
+            # a member of the value set as a caller holds it: mostly the plain Python value (an int, a name or number for an
+            # enum, tuples, a dict), sometimes already converted by the datatype (as read from a cache before)
+            v = gen(rng)
+            if rng.random() < 0.3:
+                v = dt(v)
+            back = rng.choice([None, None, gen(rng)])       # the driver answers with a value of its own (plain as well)
             dlog.returns[(m, p)] = (lambda x, b=back: b) if back is not None else None
             del dlog.writes[:]
+            prev = node.modules[m].parameters[p].value      # what the parameter holds: `previous` of the node's validation
             res.evaluations += 1
             res.count('e2e.type=' + type(dt).__name__)
             via = 'proxy' if proxies and rng.random() < 0.5 else 'client'
@@ -841,28 +884,29 @@ def e2e_case(rng, nvalues, with_proxy, res):
                     cache = psec.cache          # the cache of the proxy node's own client
                     got_back = getattr(proxies[m], 'write_' + p)(v)
                     err = cache[m, p].readerror
-                ts = cache[m, p].timestamp
+                entry = cache[m, p]
+                ts = entry.timestamp
             except Exception as e:
                 fails.append({'sig': 'C12:e2e:raises:' + type(e).__name__, 'what': f'{via}: writing {v!r} to {m}:{p} ({dt!r}) raised {e!r}',
                               'detail': {'type': repr(dt), 'value': repr(v), 'via': via}})
                 continue
             t_after = _time.time()
-            w = [x for x in dlog.writes if x[0] == m and x[1] == p]
-            expect_back = back if back is not None else (w[0][2] if w else None)
-            ok_driver = len(w) == 1 and pyeq(w[0][2], v)
-            ok_cache = err is None and pyeq(got_back, expect_back) and pyeq(cache[m, p].value, expect_back)
-            ok_time = ts is not None and ts <= t_after + 1e-6
-            if not (ok_driver and ok_cache and ok_time):
-                which = 'driver' if not ok_driver else 'cache' if not ok_cache else 'timestamp'
-                sig = f'C12:e2e:{which}:{type(dt).__name__}'
-                if which == 'driver' and len(w) == 1 and is_truncation(w[0][2], v):
-                    sig = 'C12:e2e:array-truncated-to-stored-length'
-                fails.append({'sig': sig,
-                              'what': f'{via}: wrote {v!r} to {m}:{p} ({dt!r}); driver got {[x[2] for x in w]!r}, returned '
-                                      f'{expect_back!r}; cache has {cache[m, p]!r} (ts {ts!r} vs clock {t_after!r})',
-                              'detail': {'type': repr(dt), 'value': repr(v), 'via': via}})
-            else:
-                res.nontriv(['e2e', type(dt).__name__, canon(v), canon(expect_back), via])
+            w = [x[2] for x in dlog.writes if x[0] == m and x[1] == p]
+            returned = back if back is not None else (w[0] if w else None)      # what the driver's write function returned
+            req = {'p': PROP, 'k': 'judge_e2e', 'passed': pval(v), 'got': [pval(x) for x in w],
+                   'returned': None if returned is None else pval(returned),
+                   'ret': None if err is not None else pval(got_back),
+                   'cache': None if entry.readerror is not None else pval(entry.value),
+                   'ts': fj(ts) if isinstance(ts, (int, float)) and not isinstance(ts, bool) else None, 'clock': fj(t_after + 1e-6)}
+            # correspondence: the datatype model's account of the same write (directly, or through the proxy module)
+            cdt = (client if via == 'client' else psec).modules[m]['parameters'][p]['datatype']
+            mreq = {'p': PROP, 'k': 'e2e', 'via': via, 'dt': dt_to_tree(dt), 'cdt': dt_to_tree(cdt), 'prev': pval(prev),
+                    'passed': pval(v), 'ret': None if back is None else pval(back)}
+            models.append(mreq)
+            pending.append((req, f'{via}: wrote {v!r} to {m}:{p} ({dt!r}); driver got {w!r}, returned {returned!r}; setParameter '
+                                 f'gave {got_back!r} (error {err!r}); cache has {entry!r} (ts {ts!r} vs clock {t_after!r})',
+                            {'type': repr(dt), 'tname': type(dt).__name__, 'value': repr(v), 'via': via,
+                             'nt': ['e2e', type(dt).__name__, canon(v), canon(returned), via]}))
         # ---- read errors: every error class of errors.py raised by a driver comes back as that class with that text
         import frappy.errors as fe
         classes = sorted((c for c in fe.SECoPError.clsname2class.values() if c.__module__ == 'frappy.errors'), key=lambda c: c.__name__)
@@ -872,22 +916,16 @@ def e2e_case(rng, nvalues, with_proxy, res):
             dlog.read_error = cls(text)
             res.evaluations += 1
             res.count('e2e.read_error')
-            n0 = len(seen)
             try:
                 item = client.readParameter(m, 'bad')
-                e = item.readerror
-                ok = type(e) is cls and e.args == (text,) and item.value is None
+                obs = content_obs(item.value, item.readerror)
                 shown = repr(item)
             except Exception as ex:
-                ok, shown = False, 'raised %r' % ex
+                obs, shown = None, 'raised %r' % ex
             finally:
                 dlog.read_error = None
-            if not ok:
-                fails.append({'sig': 'C12:e2e:read-error:' + cls.__name__,
-                              'what': f'driver raised {cls.__name__}({text!r}) in read_bad of {m}; readParameter gave {shown}',
-                              'detail': {'class': cls.__name__, 'text': text}})
-            else:
-                res.nontriv(['e2e-read-error', cls.__name__, text])
+            errobs.append(({'p': PROP, 'k': 'judge_read_error', 'pycls': cls.__name__, 'name': str(cls.name), 'text': text, 'obs': obs},
+                           cls.__name__, text, m, shown))
     finally:
         for c in (client,):
             if c is not None:
@@ -898,7 +936,38 @@ def e2e_case(rng, nvalues, with_proxy, res):
         if pnode is not None:
             close_proxy_node(pnode)
         srv.close()
+    mreqs = [r for r in models if r is not None]
+    answers = driver.batch([r for r, _t, _d in pending] + [r for r, *_ in errobs] + mreqs)
+    manswers = iter(answers[len(pending) + len(errobs):])
+    for (req, text, detail), a, mreq in zip(pending, answers, models):
+        if 'driver_error' in a:
+            raise RuntimeError(f'driver error: {a} for {req}')
+        if mreq is not None:
+            ma = next(manswers)
+            if 'driver_error' in ma:
+                raise RuntimeError(f'driver error: {ma} for {mreq}')
+            impl = {'got': req['got'][0] if len(req['got']) == 1 else None, 'cache': req['cache'], 'ret': req['ret']}
+            if res_model_ok(res) and ma != impl:
+                res.disagreements.append({'case': {'kind': 'e2e', 'what': text, 'request': mreq}, 'model': ma, 'impl': impl})
+        if a['ok']:
+            res.nontriv(detail.pop('nt'))
+        else:
+            detail.pop('nt')
+            fails.append({'sig': f'C12:e2e:{a["which"]}:{detail["tname"]}', 'what': text, 'detail': detail})
+    for (req, clsname, text, m, shown), a in zip(errobs, answers[len(pending):len(pending) + len(errobs)]):
+        if 'driver_error' in a:
+            raise RuntimeError(f'driver error: {a} for {req}')
+        if a['ok']:
+            res.nontriv(['e2e-read-error', clsname, text])
+        else:
+            fails.append({'sig': 'C12:e2e:read-error:' + clsname,
+                          'what': f'driver raised {clsname}({text!r}) in read_bad of {m}; readParameter gave {shown}',
+                          'detail': {'class': clsname, 'text': text}})
     return fails
+
+
+def res_model_ok(res):
+    return getattr(res, 'model_ok', True)
 
 
 def make_proxy_node(node, port, info):
@@ -1035,6 +1104,11 @@ def run(ctx):
                     res.count('line.cache=' + ('changed' if st['cache'] != prev_cache else 'same'))
                     kind = ev[2][0] if ev[2] else 'garbage'
                     res.count('line.' + (kind if kind in UPDATE_ACTIONS + ['garbage', 'error_change'] else 'other'))
+                    if ev[2] and ev[2][2][0] == 'v' and st['cache'] != prev_cache:       # an imported value: which kind
+                        jv = ev[2][2][1]
+                        res.count('imported.' + ('int>2**53' if isinstance(jv, int) and not isinstance(jv, bool) and abs(jv) > 2 ** 53
+                                                 else 'float' if isinstance(jv, dict) and 'f' in jv
+                                                 else 'object' if isinstance(jv, dict) else type(jv).__name__))
                     if len(st['calls']) >= 2:
                         eff += 1
                     if not st['calls'] and not st['reported']:
@@ -1045,6 +1119,7 @@ def run(ctx):
                     if ev[0] == 'reg':
                         res.count('reg.immediate_calls=%s' % min(len(st['calls']), 3))
                 prev_cache = st['cache']
+            res.count('case.callbacks_unregistering_inside=%d' % min(3, sum(1 for v in case['cbs'].values() if v.get('removes'))))
             if eff and idle and steps and steps[-1]['cache']:
                 res.nontriv(wired)
             if len(res.samples) < 3 and eff and len(case['events']) <= 6:
@@ -1135,10 +1210,11 @@ def run(ctx):
     done = 0
     import random
     idx = 0
+    res.model_ok = ctx.model_ok
     while done < nvals:
         sub = f'{PROP}:e2e:{ctx.seed}:{int(ctx.escalated)}:{ctx.tier}:{idx}'      # every node has its own PRNG: replayable alone
         with_proxy = idx % 2 == 1
-        fails = e2e_case(random.Random(sub), per_node, with_proxy=with_proxy, res=res)
+        fails = e2e_case(random.Random(sub), per_node, with_proxy=with_proxy, res=res, driver=ctx.driver)
         idx += 1
         done += per_node
         res.traces += per_node
@@ -1159,7 +1235,7 @@ def replay(ctx, rp):
     case = rp['case']
     if case['kind'] == 'e2e':
         import random
-        fails = e2e_case(random.Random(case['sub']), case['nvalues'], with_proxy=case['with_proxy'], res=Result())
+        fails = e2e_case(random.Random(case['sub']), case['nvalues'], with_proxy=case['with_proxy'], res=Result(), driver=ctx.driver)
         for f in fails:
             print(f['sig'], '-', f['what'])
         same = [f for f in fails if f['sig'] == case.get('sig')]
